@@ -10,6 +10,9 @@ From IE Require Import Lib.Tbl Lib.C05Lib Gen.Codepage Gen.Formats Model.Attr Mo
   Model.C05Idf Model.C05Tundra Model.C05Spec
   Proofs.C05BufProofs Proofs.C05BinProofs Proofs.C05AdfProofs Proofs.C05XBinProofs Proofs.C05IdfProofs Proofs.C05TundraProofs.
 From IE Require Model.C02Loaders Proofs.C02BridgeProofs.
+From IE Require Import Model.C05SpecX Model.C05XBinC Model.C05Files Proofs.C05XBinCProofs Proofs.C05XBinResaveProofs Proofs.C05FilesProofs
+  Proofs.C05IdfWideProofs.
+From IE Require Model.Sauce Model.SauceSpec Model.XBin.
 Import ListNotations.
 Local Open Scope Z_scope.
 
@@ -180,3 +183,240 @@ Proof. exact idf_known_size_refused. Qed.
 Theorem known_2_witness :
   exists b, load_xb known_xb_file None = Ok b /\ KnownC05_xb_font2_missing (pic_of b) /\ save_xb (pic_of b) = Err 1.
 Proof. exact known_xb_font2_witness. Qed.
+
+(* ================================================================== Extension ==================================== *)
+(* XBin WHOLE files with compressed data, re-save of 512-character files, files with their SAUCE bytes.
+   `save_xbo compress` (Model/C05XBinC.v) is XBin::to_bytes for both values of SaveOptions.compress: C05's header, palette and
+   font blocks, the flag bit, and C06's compress_backtrack for the data section; `C02Loaders.load_xb2` is XBin::load_buffer as
+   it is now, compressed branch included.  Nothing below assumes anything about the cells beyond what is written. *)
+
+(* the writer with compress = false is the writer the statements above are about *)
+Theorem xb_writer_uncompressed : forall p, save_xbo false p = save_xb p.
+Proof. exact save_xbo_false. Qed.
+
+(* the data sections: whatever the reader width, mode, font mode and starting layer are, the compressed reader makes of the
+   compressor's bytes the LAYER the uncompressed reader makes of the uncompressed bytes (C06's impl_decoder_agrees carried
+   from set_char traces to layers, and from C06's reader model to the loader model of C02) *)
+Theorem xb_data_sections_load_alike : forall m fonts rows wd cb pb lm fixed w L,
+  Forall (fun r => length r = wd) rows ->
+  xb_data_section true m fonts rows = Ok cb -> xb_data_section false m fonts rows = Ok pb ->
+  C02Loaders.xb_read_compressed w lm fixed L cb = Ok (xb_read_uncompressed w lm fixed L 0 0 pb).
+Proof. exact xb_sections_load_alike. Qed.
+
+(* the full-file loader calls the reader selected by FLAG_COMPRESS on exactly the bytes behind header, palette and font blocks *)
+Theorem xb_loader_reads_data_section : forall p s two f0 f1 fh comp D, xb_blocks p two f0 f1 fh ->
+  C02Loaders.load_xb2 (xb_file p two f0 f1 fh comp D) s =
+  let* L := (if comp then C02Loaders.xb_read_compressed (p_w p) (xb_mode (p_ice p)) two (mkLayer (p_w p) (p_h p) []) D
+             else Ok (xb_read_uncompressed (p_w p) (xb_mode (p_ice p)) two (mkLayer (p_w p) (p_h p) []) 0 0 D)) in
+  Ok (crop_loaded_file (set_layer (xb_b3 p two f0 f1 fh) L)).
+Proof. exact xb_load2. Qed.
+
+(* ... and the writer puts the data section there *)
+Theorem xb_writer_places_data_section : forall p two pg0 pg1 f0 f1 fh comp, xb_shape_g p two pg0 pg1 f0 f1 fh ->
+  save_xbo comp p = let* D := xb_data_section comp (p_ice p) (xb_pages two pg0 pg1) (p_rows p) in Ok (xb_file p two f0 f1 fh comp D).
+Proof. exact xb_saveo. Qed.
+
+(* FILES: for every picture whose size, palette and font blocks the format admits - ANY cells, any one or two font page
+   numbers - the compressed file exists iff the uncompressed one does, and both load to the SAME buffer (every stored cell
+   with its font page, sizes, modes, palette, fonts), whatever SAUCE records accompany them *)
+Theorem xb_compressed_file_loads_as_plain : forall p two pg0 pg1 f0 f1 fh s s' dc, xb_shape_g p two pg0 pg1 f0 f1 fh ->
+  save_xbo true p = Ok dc ->
+  exists du, save_xbo false p = Ok du /\ C02Loaders.load_xb2 dc s = C02Loaders.load_xb2 du s'.
+Proof. exact xb_files_load_alike. Qed.
+
+Theorem xb_compressed_file_exists_iff : forall p two pg0 pg1 f0 f1 fh, xb_shape_g p two pg0 pg1 f0 f1 fh ->
+  ((exists dc, save_xbo true p = Ok dc) <-> (exists du, save_xbo false p = Ok du)).
+Proof. exact xb_files_exist_alike. Qed.
+
+(* the compressed file is header, palette and font blocks followed by exactly one stream the XBin specification's decoder
+   (C06's xb_spec_rows, written from doc/FileFormats/x_bin.htm) accepts completely: nothing follows the last row *)
+Theorem xb_compressed_file_spec_conformant : forall p two pg0 pg1 f0 f1 fh dc, xb_shape_g p two pg0 pg1 f0 f1 fh ->
+  save_xbo true p = Ok dc ->
+  exists D, dc = xb_file p two f0 f1 fh true D /\
+            XBin.xb_spec_rows (Z.to_nat (p_w p)) (length (p_rows p)) D =
+            Some (map (map (fun c => (c_ch c, encode_attr (p_ice p) (xb_pages two pg0 pg1) c))) (p_rows p), []).
+Proof. exact xb_file_spec_conformant. Qed.
+
+(* round trips of compressed files, every representable picture *)
+Theorem xb_roundtrip_compressed_one_font : forall p s, representable_xb1 p ->
+  exists data b, save_xbo true p = Ok data /\ C02Loaders.load_xb2 data s = Ok b /\ same_picture true [0%N] p (pic_of b).
+Proof. exact (xb_roundtrip1_o_proof true). Qed.
+
+Theorem xb_roundtrip_compressed_two_fonts : forall p s, representable_xb2 p ->
+  exists data b, save_xbo true p = Ok data /\ C02Loaders.load_xb2 data s = Ok b /\ same_picture true [0%N; 1%N] p (pic_of b).
+Proof. exact (xb_roundtrip2_o_proof true). Qed.
+
+(* the property's sentence about compression, on files: both files exist, load to one and the same buffer, and that buffer
+   shows the saved picture - font page per cell included in 512-character mode *)
+Theorem xb_compression_transparent_one_font : forall p s, representable_xb1 p ->
+  exists dc du b, save_xbo true p = Ok dc /\ save_xbo false p = Ok du /\
+                  C02Loaders.load_xb2 dc s = Ok b /\ C02Loaders.load_xb2 du s = Ok b /\ same_picture true [0%N] p (pic_of b).
+Proof. exact xb_compress_transparent1_proof. Qed.
+
+Theorem xb_compression_transparent_two_fonts : forall p s, representable_xb2 p ->
+  exists dc du b, save_xbo true p = Ok dc /\ save_xbo false p = Ok du /\
+                  C02Loaders.load_xb2 dc s = Ok b /\ C02Loaders.load_xb2 du s = Ok b /\ same_picture true [0%N; 1%N] p (pic_of b).
+Proof. exact xb_compress_transparent2_proof. Qed.
+
+(* a picture that uses ONE font page, whatever its number k: it is written as a one-font file and loads with page 0 - same
+   characters, same displayed colours, drawn from equal glyph tables (same_picture_glyphs: Model/C05SpecX.v) *)
+Theorem xb_roundtrip_any_page : forall p s compress k f,
+  xb_common p -> used_pages (p_rows p) = [k] -> all_pic_cells (cell8 (p_ice p)) p ->
+  get_font (p_fonts p) k = Some f -> fontok f ->
+  exists data b, save_xbo compress p = Ok data /\ C02Loaders.load_xb2 data s = Ok b /\ same_picture_glyphs p (pic_of b).
+Proof. exact xb_roundtrip_page. Qed.
+
+(* ... and a picture that uses TWO font pages pa < pb, whatever their numbers: attribute bit 3 selects pb, the file loads with
+   pages 0 and 1 and the glyph tables of pa and pb in slots 0 and 1 *)
+Theorem xb_roundtrip_any_two_pages : forall p s compress pa pb fa fb h,
+  xb_common p -> used_pages (p_rows p) = [pa; pb] -> pa <> pb ->
+  all_pic_cells (fun c => cell8 (p_ice p) c /\ (foreground_color (c_attr c) < 8)%N /\ is_bold (c_attr c) = false) p ->
+  get_font (p_fonts p) pa = Some fa -> get_font (p_fonts p) pb = Some fb -> font_wf h fa -> font_wf h fb -> (1 <= h <= 32)%N ->
+  exists data b, save_xbo compress p = Ok data /\ C02Loaders.load_xb2 data s = Ok b /\ same_picture_glyphs p (pic_of b).
+Proof. exact xb_roundtrip_pages2. Qed.
+
+(* re-save of EVERY file the loader accepts - 256- and 512-character mode, compressed or not, any SAUCE - with either
+   writer: the same picture up to the numbering of font pages, and with equal page numbers unless the file uses page 1 only
+   (then it is written back as a one-font file).  The only files excluded are those of known finding 2. *)
+Theorem xb_resave_any : forall data s b,
+  is_bytes data -> C02Loaders.load_xb2 data s = Ok b -> ~ KnownC05_xb_font2_missing (pic_of b) ->
+  forall compress s', exists data' b',
+    save_xbo compress (pic_of b) = Ok data' /\ C02Loaders.load_xb2 data' s' = Ok b' /\
+    same_picture_glyphs (pic_of b) (pic_of b') /\
+    (used_pages (p_rows (pic_of b)) <> [1%N] ->
+     same_picture true (used_pages (p_rows (pic_of b))) (pic_of b) (pic_of b')).
+Proof. exact xb2_resave_proof. Qed.
+
+Theorem xb_resave_512 : forall data s b,
+  is_bytes data -> xb_512_file data -> C02Loaders.load_xb2 data s = Ok b -> ~ KnownC05_xb_font2_missing (pic_of b) ->
+  forall compress s', exists data' b',
+    save_xbo compress (pic_of b) = Ok data' /\ C02Loaders.load_xb2 data' s' = Ok b' /\
+    same_picture_glyphs (pic_of b) (pic_of b') /\
+    (used_pages (p_rows (pic_of b)) <> [1%N] ->
+     same_picture true (used_pages (p_rows (pic_of b))) (pic_of b) (pic_of b')).
+Proof. exact (fun data s b Hb _ => xb2_resave_proof data s b Hb). Qed.
+
+(* C05-xb-resave-512-chars-without-font is the EXACT exception: an accepted file cannot be saved again iff it loads with a
+   page-1 cell and no font 1 (flag 0x10 without 0x02); the writer then answers NoFontFound or "Can't get second font" *)
+Theorem known_2_exact : forall data s b compress,
+  is_bytes data -> C02Loaders.load_xb2 data s = Ok b ->
+  ((exists e, save_xbo compress (pic_of b) = Err e) <-> KnownC05_xb_font2_missing (pic_of b)).
+Proof. exact xb2_refused_iff_known. Qed.
+
+Theorem known_2_refusal : forall data s b compress,
+  is_bytes data -> C02Loaders.load_xb2 data s = Ok b -> KnownC05_xb_font2_missing (pic_of b) ->
+  save_xbo compress (pic_of b) = Err 1 \/ save_xbo compress (pic_of b) = Err 10.
+Proof. exact xb2_known_refused. Qed.
+
+Theorem known_2_witness_both_writers : forall compress,
+  exists b, C02Loaders.load_xb2 known_xb_file None = Ok b /\ KnownC05_xb_font2_missing (pic_of b) /\ save_xbo compress (pic_of b) = Err 1.
+Proof. exact known_xb_font2_witness2. Qed.
+
+(* ------------------------------------------------------------------ files with their SAUCE bytes (composition with C11) *)
+(* `X_to_bytes true` = Buffer::to_bytes(ext, save_sauce = true): the data followed by the EOF byte, the optional comment block
+   and the 128-byte record of write_sauce_info; `X_from_bytes dp` = Buffer::from_bytes: SauceData::extract, the cut, the loader.
+   For every content C11's split_exact cuts exactly the appended bytes off; the width reaches the BIN loader through FileType
+   (w / 2 as u8) and the Tundra loader through TInfo1 (u16).  `name` = name of font 0 (write_sauce_info unwraps get_font(0):
+   hence has_font0), `ws` = the buffer's own SAUCE strings, `d` / `dp` = today's date as written / chrono's parser. *)
+Theorem bin_file_roundtrip : forall dp p name ws d date,
+  representable_bin p -> has_font0 p -> SauceSpec.wf (wbuf_of p name ws) -> length d = 8%nat -> dp d = Some date ->
+  exists file b, bin_to_bytes true p name ws d = Ok file /\ bin_from_bytes dp file = Ok b /\ same_picture false [] p (pic_of b).
+Proof. exact bin_file_roundtrip_proof. Qed.
+
+Theorem tnd_file_roundtrip : forall dp p name ws d date,
+  representable_tnd p -> has_font0 p -> SauceSpec.wf (wbuf_of p name ws) -> length d = 8%nat -> dp d = Some date ->
+  exists file b, tnd_to_bytes true p name ws d = Ok file /\ tnd_from_bytes dp file = Ok b /\ same_picture_rgb p (pic_of b).
+Proof. exact tnd_file_roundtrip_proof. Qed.
+
+Theorem xb_file_roundtrip_one_font : forall dp compress p name ws d date,
+  representable_xb1 p -> has_font0 p -> SauceSpec.wf (wbuf_of p name ws) -> length d = 8%nat -> dp d = Some date ->
+  exists file b, xb_to_bytes compress true p name ws d = Ok file /\ xb_from_bytes dp file = Ok b /\ same_picture true [0%N] p (pic_of b).
+Proof. exact xb_file_roundtrip1_proof. Qed.
+
+Theorem xb_file_roundtrip_two_fonts : forall dp compress p name ws d date,
+  representable_xb2 p -> has_font0 p -> SauceSpec.wf (wbuf_of p name ws) -> length d = 8%nat -> dp d = Some date ->
+  exists file b, xb_to_bytes compress true p name ws d = Ok file /\ xb_from_bytes dp file = Ok b /\ same_picture true [0%N; 1%N] p (pic_of b).
+Proof. exact xb_file_roundtrip2_proof. Qed.
+
+Theorem adf_file_roundtrip : forall dp p name ws d date,
+  representable_adf p -> has_font0 p -> SauceSpec.wf (wbuf_of p name ws) -> length d = 8%nat -> dp d = Some date ->
+  exists file b, adf_to_bytes true p name ws d = Ok file /\ adf_from_bytes dp file = Ok b /\ same_picture true [0%N] p (pic_of b).
+Proof. exact adf_file_roundtrip_proof. Qed.
+
+(* IDF appends a record of type Bin: the writer then refuses widths above 511 (w / 2 must fit a byte) - the second half of known finding 1 *)
+Theorem idf_file_roundtrip : forall dp compress p name ws d date,
+  representable_idf_wide p -> p_w p <= 511 -> has_font0 p -> SauceSpec.wf (wbuf_of p name ws) -> length d = 8%nat -> dp d = Some date ->
+  exists file b, idf_to_bytes compress true p name ws d = Ok file /\ idf_from_bytes dp file = Ok b /\ same_picture true [0%N] p (pic_of b).
+Proof. exact idf_file_roundtrip_proof. Qed.
+
+(* every .tnd file Buffer::from_bytes accepts, whatever SAUCE record it carries (C11: the width extract reports is never
+   negative, which is all the Tundra loader needs): written back with its record and read again as the same picture *)
+Theorem tnd_file_resave : forall dp bytes b,
+  is_bytes bytes -> tnd_from_bytes dp bytes = Ok b ->
+  0 <= b_h b -> b_w b * b_h b < 1073741824 -> (N.of_nat (length bytes) < 536870912)%N ->
+  forall name ws d date, SauceSpec.wf (wbuf_of (pic_of b) name ws) -> length d = 8%nat -> dp d = Some date ->
+  exists file' b', tnd_to_bytes true (pic_of b) name ws d = Ok file' /\ tnd_from_bytes dp file' = Ok b' /\
+                   same_picture_rgb (pic_of b) (pic_of b').
+Proof. exact tnd_file_resave_proof. Qed.
+
+(* ------------------------------------------------------------------ IDF without the width side condition *)
+(* the loader takes header widths up to 65536 but stores cells in its 80-column layer only; the writer has no width limit.
+   representable_idf_wide (Proofs/C05IdfWideProofs.v): width 1..65536, the first 80 cells of a row as in representable_idf,
+   the rest the cell Buffer::get_char returns outside the layer.  It contains representable_idf. *)
+Theorem idf_wide_contains_idf : forall p, representable_idf p -> representable_idf_wide p.
+Proof. exact representable_idf_is_wide. Qed.
+
+Theorem idf_roundtrip_any_width : forall compress p, representable_idf_wide p ->
+  exists data b, save_idf compress p = Ok data /\ load_idf data = Ok b /\ same_picture true [0%N] p (pic_of b).
+Proof. exact idf_roundtrip_wide_proof. Qed.
+
+(* idf_resave without `b_w b <= 80` (an artefact of the proof); `b_h b <= 200` stays because the writer really refuses: *)
+Theorem idf_resave_any_width : forall data b,
+  is_bytes data -> load_idf data = Ok b -> b_h b <= 200 ->
+  forall compress, exists data' b', save_idf compress (pic_of b) = Ok data' /\ load_idf data' = Ok b' /\
+                                    same_picture true [0%N] (pic_of b) (pic_of b').
+Proof. exact idf_resave_wide_proof. Qed.
+
+(* ... known finding 1 is the exact exception *)
+Theorem known_1_exact : forall data b compress,
+  is_bytes data -> load_idf data = Ok b ->
+  ((exists e, save_idf compress (pic_of b) = Err e) <-> KnownC05_idf_size (pic_of b)).
+Proof. exact idf_refused_iff_known. Qed.
+
+(* ------------------------------------------------------------------ non-vacuity of the extension *)
+(* a 9 x 2 two-font picture with runs: the compressed file is shorter, differs from the plain file only in the flag byte and the
+   data section, and both load to the same buffer with pages 0 and 1 in place *)
+Definition demo_xb2 : pic :=
+  mkPic 9 2 Ice
+        [ repeat (mkCell 65 (mkAttr 0 7 1 0)) 4 ++ repeat (mkCell 65 (mkAttr 1 7 1 0)) 4 ++ [mkCell 66 (mkAttr 1 3 0 0)];
+          repeat (mkCell 32 (mkAttr 0 7 0 0)) 9 ]
+        DOS_DEFAULT_PALETTE [(0%N, default_font); (1%N, default_font)].
+Example demo_xb2_compressed :
+  match save_xbo true demo_xb2, save_xbo false demo_xb2 with
+  | Ok dc, Ok du =>
+      (length dc <? length du)%nat = true /\ nth 10 dc 0%N = 30%N /\ nth 10 du 0%N = 26%N /\
+      match C02Loaders.load_xb2 dc None, C02Loaders.load_xb2 du None with
+      | Ok b, Ok b' => b = b' /\ map (map (fun c => font_page (c_attr c))) (p_rows (pic_of b)) = [[0; 0; 0; 0; 1; 1; 1; 1; 1]; [0; 0; 0; 0; 0; 0; 0; 0; 0]]%N
+      | _, _ => False
+      end
+  | _, _ => False
+  end.
+Proof. vm_compute. repeat split; reflexivity. Qed.
+
+(* an IDF file 100 columns wide: it loads 100 x 1 with an 80-column layer, is saved again (both writers) and loads as the same picture *)
+Definition demo_idf_wide_file : list N :=
+  IDF_V1_4_HEADER ++ [0; 0; 0; 0; 99; 0; 0; 0]%N ++ flat_map (fun i => [65 + i mod 26; i mod 256])%N (nrange 100)
+  ++ repeat 0%N 4096 ++ repeat 0%N 48.
+Example demo_idf_wide :
+  match load_idf demo_idf_wide_file with
+  | Ok b => b_w b = 100 /\ l_w (b_layer b) = 80 /\
+            match save_idf true (pic_of b), save_idf false (pic_of b) with
+            | Ok d1, Ok d2 => match load_idf d1, load_idf d2 with
+                              | Ok b1, Ok b2 => p_rows (pic_of b1) = p_rows (pic_of b) /\ p_rows (pic_of b2) = p_rows (pic_of b)
+                              | _, _ => False
+                              end
+            | _, _ => False
+            end
+  | _ => False
+  end.
+Proof. vm_compute. repeat split; reflexivity. Qed.
